@@ -188,6 +188,13 @@ impl TransportReader {
             self.inner.pop()?
         };
 
+        #[cfg(dnp3_verif)]
+        if !peek {
+            if let TransportData::Fragment(fragment) = &transport_data {
+                crate::verif::hooks::fragment_popped(fragment.info.addr.link.raw_value(), fragment.data);
+            }
+        }
+
         match transport_data {
             TransportData::Fragment(fragment) => Some(
                 ParsedFragment::parse(self.parse_options, fragment.data)
